@@ -204,6 +204,7 @@ func c04(args []string) {
 			}
 		}
 	}
+	sweep = append(sweep, []byte{}, []byte{0x0E}, []byte{0x0C, 0x10}) // nothing at all; the first bytes of a header and nothing else
 	stat("header_size_sweep", len(sweep))
 	for i := -len(sweep); i < nref; i++ {
 		var b []byte
@@ -263,6 +264,38 @@ func c04(args []string) {
 			stat("oracle_integrity_other_readers", 1)
 			if p == nil && (n2 != n || (err2 == nil) != (err == nil)) {
 				emitJSON("FAIL", "", map[string]any{"kind": "integrity-depends-on-reader", "bytes": fmt.Sprintf("%x", b), "contiguous": fmt.Sprint(n, err), "other_reader": fmt.Sprint(n2, err2), "reader": fmt.Sprintf("%T", rd)})
+			}
+		}
+		// the verdict does not depend on what the decoder did before either: a decoder that decoded (or checked) another file and was
+		// Reset onto these bytes counts and judges them like a fresh one
+		if p == nil && len(pool) > 0 {
+			prev := pool[(len(b)+i+1000*len(pool))%len(pool)]
+			for _, how := range []int{0, 1, 2} {
+				n3, err3, p3 := func() (n int, err error, p any) {
+					defer func() { p = recover() }()
+					dec := decoder.New(bytes.NewReader(prev))
+					switch how {
+					case 0: // everything decoded, up to the end of the previous stream
+						for dec.Next() {
+							if _, e := dec.Decode(); e != nil {
+								break
+							}
+						}
+					case 1: // one Decode call, the decoder left where that sequence ended
+						dec.Decode()
+					default:
+						dec.CheckIntegrity()
+					}
+					dec.Reset(bytes.NewReader(b))
+					n, err = dec.CheckIntegrity()
+					return
+				}()
+				stat("oracle_integrity_reused_decoder", 1)
+				if p3 != nil || n3 != n || (err3 == nil) != (err == nil) {
+					emitJSON("FAIL", "", map[string]any{"kind": "integrity-depends-on-what-the-decoder-did-before-Reset", "bytes": fmt.Sprintf("%x", b), "fresh": fmt.Sprint(n, err),
+						"reused": fmt.Sprint(n3, err3), "panic": fmt.Sprint(p3), "previous_input_len": len(prev), "previous_use": []string{"decoded to the end", "one Decode", "CheckIntegrity"}[how]})
+					break
+				}
 			}
 		}
 		if p != nil {
